@@ -816,6 +816,8 @@ META["explanation"] += " " + 'Also (rounds 10-11): stop flag and queue heads are
 
 META["explanation"] += " " + 'Also (rounds 11-12, fourth reading): control skeleton (C13.ctrl: exit / sleep polarity, decoder loop, barrier skips, reclaimer loop, start / stop of the reclaimer), bare data only for the same function, plain list.h traversal macros.'
 
+META["explanation"] += " " + 'Also (round 13): defer_rcu tests the reclaimer futex after every publication of head - the wake-up is unconditional.'
+
 RULES = [
     ("C13.tailmeaning", rule_tailmeaning),
     ("C13.ctrl", rule_ctrl),
